@@ -36,7 +36,7 @@ GEN_WORLD = {"index": "gen", "pyhash": 1, "fhash": 1, "tco": 0, "typecheck": 0, 
 
 
 def plan(seed, tier):
-    nprog = 1280 if tier == "quick" else 16000
+    nprog = 960 if tier == "quick" else 16000
     ngen = 16
     jobs = []
     for g in range(ngen):
